@@ -53,6 +53,18 @@ def run():
     dump = work.path("logic4.dump")
     t = run_tlc("Logic4MC", "Logic4MC.cfg", work, workers=4, dump=dump)
     res.add_tlc("Logic4MC: 9 laws as ASSUME + every application as a state", t)
+    # 1b. fault history: the operators were applied to foreign operands before (plain strings equal to the values' names, None, numbers); whatever those
+    #     applications do (raise, return something) is not judged - the laws on the four values must hold afterwards as they do in a fresh process
+    foreign = 0
+    for x in list(ST.values()):
+        for y in ([str(v.value) for v in ST.values()] + [str(v.name) for v in ST.values()] + [None, 0, 1, True, False, 2.5, (), object()]):
+            for f in (lambda: x & y, lambda: y & x, lambda: x | y, lambda: y | x, lambda: x ^ y, lambda: y ^ x):
+                foreign += 1
+                try:
+                    f()
+                except BaseException:  # noqa: BLE001 - not judged
+                    pass
+    res.coverage["applications_to_foreign_operands_before_the_replay"] = foreign
     # 2. spec -> code: every state (op, a, b, r) replayed on the real enum operators
     n = 0
     for s in dump_states(dump):
